@@ -42,6 +42,33 @@ func (g *G) genFlows() {
 		g.genFlow(i, f)
 		t.End()
 	}
+	// one world in thirty has a conversation that goes on for a very long time: a menu that loops through a
+	// wait, a contact who keeps answering, and a host that lets it (long histories: hundreds of steps in one
+	// run, resume counters far from zero, paths longer than any single sprint can make them)
+	if !g.P.FewKnobs && t.Chance("marathon", 1, 30) {
+		f := s.Flows[0]
+		f.Type, f.ParentFlavor = "messaging", false
+		nA, nB := g.uuid(kNode), g.uuid(kNode)
+		catStop, catOther, exStop, exOther, exB := g.uuid(kCat), g.uuid(kCat), g.uuid(kExit), g.uuid(kExit), g.uuid(kExit)
+		f.Def = J{
+			"uuid": f.UUID, "name": f.Name, "spec_version": "13.6.0", "language": f.Lang, "type": "messaging",
+			"revision": f.Revision, "expire_after_minutes": 10080, "localization": J{},
+			"nodes": []any{
+				J{"uuid": nA, "actions": []any{J{"uuid": g.uuid(kAction), "type": "send_msg", "text": "Round @node.visit_count after @(count(run.path)) steps, last @results.seen.value"}},
+					"router": J{"type": "switch", "wait": J{"type": "msg"}, "operand": "@input.text", "result_name": "Menu",
+						"cases":      []any{J{"uuid": g.uuid(kCase), "type": "has_any_word", "arguments": []any{"stopnow"}, "category_uuid": catStop}},
+						"categories": []any{J{"uuid": catStop, "name": "Stop", "exit_uuid": exStop}, J{"uuid": catOther, "name": "Other", "exit_uuid": exOther}}, "default_category_uuid": catOther},
+					"exits": []any{J{"uuid": exStop}, J{"uuid": exOther, "destination_uuid": nB}}},
+				J{"uuid": nB, "actions": []any{J{"uuid": g.uuid(kAction), "type": "set_run_result", "name": "Seen", "value": "@node.visit_count of @(count(run.path))", "category": ""}},
+					"exits": []any{J{"uuid": exB, "destination_uuid": nA}}},
+			},
+		}
+		s.Marathon = true
+		s.Opt.MaxResumesPerSession = 500
+		if s.Opt.MaxStepsPerSprint < 10 {
+			s.Opt.MaxStepsPerSprint = 10
+		}
+	}
 }
 
 type nodeDraft struct {
